@@ -202,6 +202,8 @@ func classify(kind, fam string) string {
 	return "C35." + fam + "-without-session"
 }
 
+var failCount = map[string]int{}
+
 func evaluate(r *h.Result, d *h.Driver, e *srvx.Episode) {
 	if e.Infra != "" {
 		r.InfraError = e.Name + ": " + e.Infra
@@ -254,7 +256,10 @@ func evaluate(r *h.Result, d *h.Driver, e *srvx.Episode) {
 				what += fmt.Sprintf(" and changed the server state (%s -> %s)", x.Pre, x.Post)
 			}
 			detail := fmt.Sprintf("%s with token kind %s: %s %s", x.Req, x.Kind, what, x.Note)
-			r.Fail(cs, sig, detail)
+			if failCount[sig] < 3 { // h.Result keeps 50 failures: leave room for unlisted signatures
+				failCount[sig]++
+				r.Fail(cs, sig, detail)
+			}
 			r.Confirm(sig, detail)
 			r.Hit("violation:" + sig)
 			r.Compare(d, fmt.Sprintf("class35 %s | %d | %s", x.Pre, x.Tok, x.Req), sig)
